@@ -53,7 +53,7 @@ func (s Spelling) Canonical() bool {
 	return s.Pad == 0 && s.Case == 0 && s.Lead == "" && s.Trail == ""
 }
 
-var ws = []string{"", "", "", " ", "\t", "\n", "  ", " \t\n", "\r\n"}
+var Ws = []string{"", "", "", " ", "\t", "\n", "  ", " \t\n", "\r\n"}
 
 // DrawSpelling draws a spelling (half of them canonical or unpadded-upper,
 // the forms tests already use, the rest free).
@@ -69,8 +69,8 @@ func DrawSpelling(t *rapid.T) Spelling {
 		PadN:  rapid.IntRange(0, 7).Draw(t, "spPadN"),
 		Case:  rapid.IntRange(0, 2).Draw(t, "spCase"),
 		Mask:  rapid.Uint64().Draw(t, "spMask"),
-		Lead:  rapid.SampledFrom(ws).Draw(t, "spLead"),
-		Trail: rapid.SampledFrom(ws).Draw(t, "spTrail"),
+		Lead:  rapid.SampledFrom(Ws).Draw(t, "spLead"),
+		Trail: rapid.SampledFrom(Ws).Draw(t, "spTrail"),
 	}
 }
 
